@@ -27,7 +27,7 @@ func init() { Register("req", func() Domain { return reqDom{} }) }
 // ---- generator ------------------------------------------------------------
 
 var reqVals = []string{`null`, `1`, `"s"`, `{"a":1}`, `[1,2]`, `true`, `{"rid":"x.y"}`, `"q\"uote"`, `12.5`, `{"a":{"b":[]}}`}
-var reqMsgs = []string{"Custom message", "Oops", "m"}
+var reqMsgs = []string{"Custom message", "Oops", "m", "say \"hi\"", "back\\slash and\ttab", "two\nlines"}
 var reqCodes = []string{"custom.code", "system.notFound", "system.invalidParams", "x.y"}
 
 func jv(r *gen.R) string {
@@ -51,7 +51,7 @@ func genAction(r *gen.R) string {
 		}
 		return act("ok", jv(r))
 	case k < 11:
-		return act("resource", e(r.Pick([]string{"x.y", "svc.a", "bad..rid", "a?q=1", "*", "", "?", "?limit=5", "a.b?", "a.>", "a b"})))
+		return act("resource", e(r.Pick([]string{"x.y", "svc.a", "bad..rid", "a?q=1", "*", "", "?", "?limit=5", "a.b?", "a.>", "a b", "x.a\\b", "x.\"q\"", "x.y?q=\"1\""})))
 	case k < 16:
 		switch r.Intn(5) {
 		case 0, 1:
@@ -81,7 +81,7 @@ func genAction(r *gen.R) string {
 	case k < 40:
 		return act("collection", jv(r), e(r.Pick([]string{"", "", "q=1"})))
 	case k < 42:
-		return act("new", e(r.Pick([]string{"x.y", "bad..rid", "", "?q=1", "a.b?x=1"})))
+		return act("new", e(r.Pick([]string{"x.y", "bad..rid", "", "?q=1", "a.b?x=1", "x.a\\b", "x.\"q\""})))
 	case k < 49:
 		if r.Chance(1, 3) {
 			// a duration that is not a whole number of milliseconds: the pre-response announces whole milliseconds
